@@ -200,6 +200,22 @@ def run(tier):
             C.ob("C14/convert-mutable", label, False, "the conversion mutates an immutable tree: %s" % (tm.immutable_mutations[:2],), sp2)
         if len(C.samples) < 6:
             C.sample({"value": str(r), "printed": text})
+    # the zero-architectures edge: Some(vec![]) prints "name []" and must come back as Some([]) from the lossy reader
+    for r0 in (rel("p0", archs=[]), rel("p1", version=(">=", "1.0"), archs=[], profiles=[[(True, "nocheck")]])):
+        val = lossy_value(r0)
+        tm = c10.AccMod(F, rp.KIND)
+        I = hirai.Interp(F, tm, max_depth=18)
+        rs = tm.render(I, hirai.State(depth=0), val, {})
+        lab = "%s with an empty architecture list" % r0["name"]
+        if not C.ob("C14/print-decidable", lab, len(rs) == 1 and rs[0][0] == OK and rs[0][1][0] in ("sstr", "str"), "Display undecidable", F.fn(DISPLAY_REL)["sp"]):
+            continue
+        toks = lex_text(rs[0][1], cells)
+        lmod = lr.Mod(F, db.seq_dfa([k for k, t in toks]), lit_text=lit_text, vec_cap=8)
+        lmod.tokens = toks
+        LI = tokcursor.LoopProgressInterp(F, lmod, max_depth=16)
+        res = LI.inline(F.fn(lr.ENTRY_KEY), [("abs", "text")], hirai.State(depth=0))
+        outs = [c10.lossy_model(LI, s, v[2][0]) if ctl == OK and v[0] == "enum" and v[1] == OKV else "%s %s" % (ctl, str(v)[:80]) for ctl, v, s in res]
+        C.ob("C14/lossy-reads-own-text", lab, outs == [M(r0)], "prints %r, which the lossy reader turns into %s (value was %s)" % (symstr.show(rs[0][1]), outs, M(r0)), F.fn(lr.ENTRY_KEY)["sp"])
     n_multi = check_entries_and_fields(F, C, ms, cells, lit_text, tier)
     C.note("counts", "%d lossy relation values, %d entries/fields" % (n, n_multi))
     C.floor("C14/entries", n_multi, 20, "generated lossy entries / fields")
